@@ -26,8 +26,20 @@ def family():
                 yield label, prog, meta
 
 
+    for label, prog, meta in F.fam_markers_guarded():
+        yield label, prog, dict(marks=True)
+    for label, prog, meta in F.fam_markers_refused_aux():
+        yield label, prog, dict(marks=True, alphabet=meta["alphabet"])
+
+
 def on_prog(p, idx, label, prog, meta):
     from mc.flo import explore, monitors, families as F, lang, conform
+    if meta.get("marks"):
+        # refused attempts whose conditions are marker needs: marks (reset only by transit actions) must equal the reference's
+        runner.explore_and_check(p, idx, label, prog, mons=(), cmp=runner.cmp_full(fields=(0, 1, 3, 4, 5)),
+                                 alphabet=meta.get("alphabet") or F.XE_ALPHABET, back_alphabet=[None, {"x": 1}],
+                                 watch=("x", "env.e0", "env.e1"), depth=8, sample_every=7)
+        return
 
     def on_run(prog, envf, envb, rr, text, br):
         p.evaluations += 1
